@@ -58,6 +58,8 @@ type Exec struct {
 	knownWidth  map[int]int
 	collectLocs *[]Loc
 	loopFrames  []*loopFrameRec
+	unfolding   map[*ssa.Function]int
+	unfolded    map[int]bool
 	extra       map[*Cell]Val
 }
 
